@@ -113,7 +113,7 @@ FOLDED_NONE = _FoldedNone()
 _BIN = {ast.Add: lambda a, b: a + b, ast.Sub: lambda a, b: a - b, ast.Mult: lambda a, b: a * b,
         ast.FloorDiv: lambda a, b: a // b, ast.Mod: lambda a, b: a % b, ast.BitAnd: lambda a, b: a & b,
         ast.BitOr: lambda a, b: a | b, ast.BitXor: lambda a, b: a ^ b, ast.LShift: lambda a, b: a << b,
-        ast.RShift: lambda a, b: a >> b, ast.Pow: lambda a, b: a ** b}
+        ast.RShift: lambda a, b: a >> b, ast.Pow: lambda a, b: a ** b, ast.Div: lambda a, b: a / b}
 _CMP = {ast.Eq: lambda a, b: a == b, ast.NotEq: lambda a, b: a != b, ast.Lt: lambda a, b: a < b,
         ast.LtE: lambda a, b: a <= b, ast.Gt: lambda a, b: a > b, ast.GtE: lambda a, b: a >= b,
         ast.In: lambda a, b: a in b, ast.NotIn: lambda a, b: a not in b, ast.Is: lambda a, b: a is b, ast.IsNot: lambda a, b: a is not b}
@@ -225,7 +225,7 @@ class Lit:
                 if isinstance(src, str):
                     tree = ast.parse(src, mode='eval').body
                     for x in ast.walk(tree):
-                        if not isinstance(x, (ast.BinOp, ast.UnaryOp, ast.Constant, ast.operator, ast.unaryop, ast.expr_context)):
+                        if not isinstance(x, (ast.BinOp, ast.UnaryOp, ast.Constant, ast.operator, ast.unaryop, ast.expr_context, ast.Compare, ast.BoolOp, ast.cmpop, ast.boolop)):
                             raise NotLiteral('eval of non-arithmetic text')
                     try:
                         return Lit(self.repo, self.modname).ev(tree)
